@@ -84,7 +84,7 @@ def run_banks(shard, mon, S, table):
             mon.distinct(("bankdraw", cc, k))
             w = {"country": cc, "bank_entry_index": k, "bank_code": by_country[cc][k].get("bank_code")}
             if not o.ok:
-                if o.exc_name != "GenerateRandomOverflowError":
+                if not o.is_a("GenerateRandomOverflowError"):
                     mon.viol(f"registry_draw_raised:{o.exc_name}", w, "valid IBAN or GenerateRandomOverflowError", o.brief())
                 else:
                     mon.tally("bank_draw_overflow")
@@ -149,7 +149,7 @@ def judge_draw(mon, S, table, cc, seedstr, use_registry, pins, allbank):
     w = {"country": cc, "seed": seedstr, "use_registry": use_registry, "pins": pins}
     mon.distinct((cc, seedstr, use_registry, tuple(sorted(pins.items()))))
     if not o.ok:
-        if o.exc_name == "GenerateRandomOverflowError":
+        if o.is_a("GenerateRandomOverflowError"):
             mon.tally("overflow")
         elif judge.is_lib_exc(o.exc):
             mon.viol(f"random_raised_other_library_error:{o.exc_name}", w, "IBAN or GenerateRandomOverflowError", o.brief())
@@ -208,7 +208,7 @@ def run_draw(shard, mon, S, table):
                     if not R.matches_spec(spec["bban_spec"], b) or o.value.country_code != cc:
                         mon.viol("bban_random_not_structure_conforming", {"country": cc, "bban": b, "use_registry": ur}, spec["bban_spec"], b)
                     mon.tally("bban_returned")
-                elif o.exc_name != "GenerateRandomOverflowError":
+                elif not o.is_a("GenerateRandomOverflowError"):
                     mon.viol(f"bban_random_raised:{o.exc_name}", {"country": cc, "use_registry": ur}, "BBAN", o.brief())
         # pinned subsets
         pinnable = [c for c in pos if not (c == "national_checksum_digits" and cc in N.COMPUTING)]
